@@ -42,4 +42,10 @@ if any(l[:2] in ("UU", "AA") for l in st.splitlines()):
     sys.exit(1)
 if conf:
     subprocess.check_call(["git", "commit", "-q", "--no-edit"])
+# safety net: a branch may itself carry a badly resolved merge
+marks = subprocess.run("git grep -n -E '^(<<<<<<< |>>>>>>> )' -- '*.go' '*.lean' '*.py' '*.json' '*.md' '*.sh' || true",
+                       shell=True, capture_output=True, text=True).stdout.strip()
+if marks:
+    print("CONFLICT MARKERS in the tree after merging", br, ":\n" + marks)
+    sys.exit(1)
 print("merged", br)
